@@ -86,7 +86,7 @@ func ruleBootstrapTxn(c *Ctx) {
 	getEnd := F(P.Method(pb+"metapb", "Region", "GetEndKey"))
 	getPeers := F(P.Method(pb+"metapb", "Region", "GetPeers"))
 	ar := c.Prop + "/bootstrap-payload"
-	c.need(ar, cb, "accepting return", func(x ssa.Instruction) bool { r, ok := x.(*ssa.Return); return ok && retIsNilErr(r) }, []Ev{
+	c.needOnSuccess(ar, cb, []Ev{
 		guardRel("store != nil", "!=", resultOfCall(F(P.Method(pb+"pdpb", "BootstrapRequest", "GetStore"))), isNilConst),
 		guardRel("region != nil", "!=", resultOfCall(F(P.Method(pb+"pdpb", "BootstrapRequest", "GetRegion"))), isNilConst),
 		guardRel("store id != 0", "!=", resultOfCall(storeGetID), isConstInt(0)),
